@@ -263,6 +263,34 @@ def check_from_chords(ctx, case):
                                                    "from_chords:rest" if any(c is None for c, _ in req) else "from_chords:no-rest"])
 
 
+def check_from_chords_tuned(ctx, case):
+    """with a tuning attached, from_chords places a playable fingering of every chord: same pitch classes, same lengths, same order"""
+    from mingus.core import chords as _chords
+    from mingus.extra import tunings
+    chordlist, dur = case["chords"], case["duration"]
+    tun = tunings.get_tuning("Guitar", "Standard", 6, 1)
+    track = Track()
+    if case.get("on_instrument"):
+        track = Track(Instrument())  # wide range; the tuning is then stored on the instrument
+    track.set_tuning(tun)
+    ctx.check(track.get_tuning() is tun, "from_chords/tuning-not-kept", "")
+    r = ctx.ok("from_chords", track.from_chords, chordlist, dur)
+    if failed(r):
+        return
+    req = []
+    for c in chordlist:
+        _flatten(c, dur, req)
+    exp = _merge([[None if c is None else sorted({T.pc(n) for n in _chords.from_shorthand(c)}), l] for c, l in req])
+    got = _merge([[None if e[2] is None else sorted({T.pc(n.name) for n in e[2]}), _exact_len(e[1])] for e in track.get_notes()])
+    ok = len(got) == len(exp) and all(g[0] == e[0] and abs(g[1] - e[1]) <= Fr(1, 10 ** 9) for g, e in zip(got, exp))
+    ctx.check(ok, "from_chords/tuned-sequence", lambda: "chords %r dur %r: track has %r, requested %r" % (
+        chordlist, dur, [(g[0], float(g[1])) for g in got], [(e[0], float(e[1])) for e in exp]))
+    for e in track.get_notes():
+        if e[2] is not None:
+            ctx.check(1 <= len(e[2]) <= 6, "from_chords/tuned-too-many-notes", lambda: repr(e[2]))
+    ctx.note_case(True, ["from_chords:tuned"])
+
+
 def _exact_len(value):
     return Fr(1) / Fr(value).limit_denominator(10 ** 6)
 
@@ -331,7 +359,7 @@ def check_composition(ctx, case):
     ctx.note_case(len(tracks) >= 2 and bool(flags), ["composition:%d-tracks" % len(tracks)] + ["composition:" + f for f in flags])
 
 
-CHECKS = {"history": check_history, "from_chords": check_from_chords, "composition": check_composition}
+CHECKS = {"history": check_history, "from_chords": check_from_chords, "from_chords_tuned": check_from_chords_tuned, "composition": check_composition}
 
 ALPHABET = [
     ["add", "str", [["C", 4]], [4, 0, 1, 1]],
@@ -421,6 +449,10 @@ def sub_from_chords(ctx, shard, n):
         {"chords": [None, None, "C"], "duration": 1, "meter": [5, 4]},
     ])
     ctx.given("from_chords", check_from_chords, strat, 300 if ctx.quick else 10000)
+    tuned = st.fixed_dictionaries({"chords": st.lists(st.recursive(st.sampled_from(["C", "Am", "G7", "Em", "D", "F", "Dm7", "E7"]) | st.none(),
+                                                                   lambda c: st.lists(c, min_size=1, max_size=2), max_leaves=4), min_size=1, max_size=4),
+                                   "duration": st.sampled_from([1, 2, 4]), "on_instrument": st.booleans()})
+    ctx.given("from_chords_tuned", check_from_chords_tuned, tuned, 60 if ctx.quick else 600)
 
 
 def _comp_st():
